@@ -666,8 +666,8 @@ func c12Table() []*c12Entry {
 			k := c12s(a, 0)
 			before, berr := x.cli.SMembers(x.ctx, k).Result()
 			if x.ctx.Err() != nil {
-				if c12ErrClass(gotErr) != "context.Canceled" {
-					return false, fmt.Sprintf("cancelled context: wrapper returned %s %s, go-redis gives context.Canceled", c12CanonAll(got), c12ErrClass(gotErr))
+				if c12ErrClass(gotErr) != c12ErrClass(x.ctx.Err()) {
+					return false, fmt.Sprintf("dead context: wrapper returned %s %s, go-redis gives %s", c12CanonAll(got), c12ErrClass(gotErr), c12ErrClass(x.ctx.Err()))
 				}
 				return true, ""
 			}
